@@ -309,7 +309,7 @@ pub fn run(ctx: &Ctx) {
         },
         check_conv,
     );
-    let n = t.pick(300_000u64, 10_000_000);
+    let n = t.pick(1_000_000u64, 10_000_000);
     ctx.enumerated(
         "small-integers-every-scale",
         "conv",
